@@ -44,6 +44,15 @@ fn profile() -> Profile {
 /// Largest sum |w| over the normalised windows the library computes for this geometry
 /// (through the read-only hook); None if a window has non-finite weights.
 pub fn max_abs_sum(in_size: u32, in0: f64, in1: f64, out: u32, f: fr::FilterType, adaptive: bool) -> Option<(f64, usize)> {
+    // never ask the hook for more than a few million coefficients
+    let support = match f {
+        fr::FilterType::Custom(c) => c.support(),
+        _ => 3.0,
+    };
+    let scale = ((in1 - in0) / out.max(1) as f64).max(1.0);
+    if !(scale.is_finite()) || (2.0 * support * scale + 3.0) * out as f64 > 8.0e6 {
+        return None;
+    }
     let d = fr::verif::coefficients(in_size, in0, in1, out, f, adaptive, false, false);
     let mut worst: f64 = 0.0;
     let mut taps = 0usize;
